@@ -9,8 +9,9 @@ use ark_ff::fields::{Fp64, MontBackend, MontConfig};
 use ark_ff::{FftField, PrimeField};
 use ark_poly::{
     univariate::DensePolynomial, DenseUVPolynomial, EvaluationDomain, Evaluations,
-    GeneralEvaluationDomain, MixedRadixEvaluationDomain, Radix2EvaluationDomain,
+    GeneralEvaluationDomain, MixedRadixEvaluationDomain, Polynomial, Radix2EvaluationDomain,
 };
+use ark_std::rand::{rngs::StdRng, SeedableRng};
 use num_bigint::BigUint;
 use vharness::*;
 
@@ -184,6 +185,69 @@ fn run_d<F: PrimeField + FftField, D: Dom<F>>(op: &str, a: &[Arg]) -> Vec<Arg> {
             assert!(p1 == p2, "harness: interpolate and interpolate_by_ref differ");
             ok(vec![outv(p2.coeffs())])
         },
+        // a5 = [num_coeffs of the subdomain, index...] (no index = every index of the domain);
+        // the subdomain gets the same coset offset as the domain
+        "reindex" => {
+            let s = match D::new(to_usize(&a[5][0])) {
+                Some(s) => s,
+                None => return err(2),
+            };
+            let s = if a[4].is_empty() {
+                s
+            } else {
+                match s.get_coset(fe(&a[4][0])) {
+                    Some(s) => s,
+                    None => return err(3),
+                }
+            };
+            let idx: Vec<usize> = if a[5].len() == 1 {
+                (0..d.size()).collect()
+            } else {
+                a[5][1..].iter().map(to_usize).collect()
+            };
+            let r: Vec<usize> = idx.iter().map(|&i| d.reindex_by_subdomain(s, i)).collect();
+            let low: Vec<usize> = idx.iter().copied().filter(|&i| i < s.size()).collect();
+            let ge: Vec<F> = low.iter().map(|&i| d.element(d.reindex_by_subdomain(s, i))).collect();
+            let se: Vec<F> = low.iter().map(|&i| s.element(i)).collect();
+            ok(vec![r.iter().map(|&j| from_u64(j as u64)).collect(), outv(&ge), outv(&se)])
+        },
+        // a5 = [num_coeffs of the subdomain, offset of the subdomain, tau]
+        "filter" => {
+            let s = match D::new(to_usize(&a[5][0])) {
+                Some(s) => s,
+                None => return err(2),
+            };
+            let s = match s.get_coset(fe(&a[5][1])) {
+                Some(s) => s,
+                None => return err(3),
+            };
+            let tau: F = fe(&a[5][2]);
+            let fp = d.filter_polynomial(&s);
+            let v = d.evaluate_filter_polynomial(&s, tau);
+            ok(vec![vec![out(&v)], outv(fp.coeffs()), vec![out(&fp.evaluate(&tau))]])
+        },
+        // a5 = x ++ y (two evaluation vectors of the same length)
+        "mul_evals" => {
+            let h = data.len() / 2;
+            ok(vec![outv(&d.mul_polynomials_in_evaluation_domain(&data[..h], &data[h..]))])
+        },
+        // a5 = [seed, candidates (model only)...]: only the predicate "the result is outside" is compared
+        "sample_outside" => {
+            let mut rng = StdRng::seed_from_u64(to_u64(&a[5][0]));
+            let t = d.sample_element_outside_domain(&mut rng);
+            ok(vec![vec![
+                from_bool(d.elements().any(|e| e == t)),
+                from_bool(d.evaluate_vanishing_polynomial(t) == F::zero()),
+            ]])
+        },
+        // a5 = [g, c, coeffs...]
+        "distribute" => {
+            let mut v1 = data[2..].to_vec();
+            D::distribute_powers(&mut v1, data[0]);
+            let mut v2 = data[2..].to_vec();
+            D::distribute_powers_and_mul_by_const(&mut v2, data[0], data[1]);
+            ok(vec![outv(&v1), outv(&v2)])
+        },
         _ => unsupported(),
     }
 }
@@ -210,6 +274,12 @@ fn run_f<F: PrimeField + FftField>(op: &str, a: &[Arg]) -> Vec<Arg> {
                 Some(w) => ok(vec![vec![out(&w)]]),
                 None => err(0),
             };
+        },
+        // a5 = [width, data...] with data.len() = 2^width
+        "bitrev_perm" => {
+            let mut v: Vec<F> = a[5][1..].iter().map(fe).collect();
+            ark_poly::domain::radix2::bitreverse_permutation_in_place(&mut v, to_u64(&a[5][0]) as u32);
+            return ok(vec![outv(&v)]);
         },
         _ => {},
     }
